@@ -19,6 +19,7 @@ var initAllow = map[string]bool{
 	"strconv": true, "strings": true, "bytes": true, "unicode": true, "unicode/utf8": true, "sort": true,
 	"slices": true, "cmp": true, "math/bits": true, "math": true, "io": true, "maps": true,
 	"fortio.org/sets": true, "fortio.org/safecast": true, "internal/bytealg": false,
+	"regexp": true, "regexp/syntax": true, "encoding/base64": true, "encoding/binary": true,
 }
 
 func isGrol(p *ssa.Package) bool {
@@ -343,6 +344,18 @@ func (x *Exec) intrinsicNamed(fn *ssa.Function, path, name string, args []Value)
 		}
 		return zeroResults(fn), true
 	case "sync", "sync/atomic", "internal/race", "internal/poll":
+		if name == "(*sync.Pool).Get" {
+			// an empty pool: New() when set, nil otherwise (Put is a no-op)
+			if pp, ok := args[0].(Ptr); ok && pp.P != nil {
+				if st, ok := (*pp.P).(Struct); ok && len(st) > 0 {
+					switch nf := st[len(st)-1].(type) {
+					case Func, *Closure:
+						return x.call(nf, nil), true
+					}
+				}
+			}
+			return Iface{}, true
+		}
 		if fn.Signature.Results().Len() == 0 {
 			return nil, true
 		}
